@@ -107,6 +107,11 @@ def run_bin(args):
     sh, text, workdir, tag = args
     dfa = os.path.join(workdir, tag + ".dfa")
     rx = os.path.join(workdir, tag + ".rx")
+    if sum(map(ord, tag)) % 3 == 0:
+        # the dump files already exist and are longer than the new dump (an earlier, larger grammar dumped to the same path)
+        for p in (dfa, rx):
+            with open(p, "w") as f:
+                f.write("digraph old {\n" + "\t_9 -> _9 [label=\"stale\"];\n" * 20000 + "}\n")
     rc, out, err = core.run_complgen(sh, text, extra=["--dfa", dfa, "--regex", rx], out="-")
     res = []
     for p in (dfa, rx):
